@@ -256,6 +256,30 @@ Theorem C19_cyclic_iff_no_root :
     In i (cyclic_ids sn) <-> In i (U_ids sn) /\ forall root, ~ reported_under sn i root.
 Proof. exact cyclic_iff_no_root. Qed.
 
+(* The conditions of the two recursive CTEs, the RUNNABLE insert and the seeds of the exact-count
+   closure, as translated: the creator walk starts from unsafe steps, passes through RUNNING/SUCCEEDED
+   non-holding ancestors and stops exactly where it does not pass (one row per step at most); the
+   attribution walk seeds from the non-BLOCK_STEP rows and joins BLOCK_STEP rows on src = walk.i;
+   steps without a candidate get kind ROOT_RUNNABLE; pend_seed holds the FILE and RESOURCE candidates. *)
+Theorem C19_walk_clauses :
+  (forall u, anc_gate u = s_unsafe u) /\
+  (forall p, chain_ok p = ((s_state p =? SS_RUNNING) || (s_state p =? SS_SUCCEEDED)) && (s_holding p =? 0)) /\
+  (forall p, anc_stop p = negb (chain_ok p)) /\
+  (forall row, is_seed row = negb (c_kind (snd row) =? K_BLOCK_STEP)) /\
+  (forall i row, is_child i row = (c_kind (snd row) =? K_BLOCK_STEP) && (c_src (snd row) =? i)) /\
+  gen_runnable_kind = K_ROOT_RUNNABLE.
+Proof.
+  split; [exact anc_gate_spec|]. split; [exact chain_ok_spec|]. split; [exact anc_stop_spec|].
+  split; [exact is_seed_spec|]. split; [exact is_child_spec|apply runnable_insert_spec].
+Qed.
+
+Theorem C19_seed_arms_are_blocker_arms :
+  forall sn u, In u (U sn) ->
+    flat_map (arm_cands sn u) gen_seed_arms
+    = map (fun f => (K_ROOT_FILE, f_label f, f_id f)) (filter (dead_file sn) (blocking_files sn u))
+      ++ map (fun r => (K_ROOT_RESOURCE, fst r, 0)) (unsat_reqs sn u).
+Proof. exact seed_arms_spec. Qed.
+
 (* The bucket queries: _bucket counts the attributed rows of the kind it is called with, the cyclic
    bucket the steps absent from pend_attributed, and _analyze_pending fills failed / cyclic /
    deferred / other / runnable from ROOT_FAILED / the residue / ROOT_DEFERRED / ROOT_OTHER /
